@@ -500,7 +500,10 @@ class _TotalJacInfo(object):
                                                           return_format)
         
         # Store which VOIs require unit scaling if we're computing an optimization jacobian.
-        if not has_custom_derivs:
+        # Driver scaling is defined on values in the declared units of the VOIs, so the unit
+        # factors are also needed whenever driver scaling is requested (e.g. for the linear
+        # constraint jacobian or a subset of the responses, which count as 'custom' derivs).
+        if not has_custom_derivs or (driver and driver_scaling and not _functional):
             self._identify_unit_active_vars()
 
         # Apply explicit unit conversions requested by the functional API.
